@@ -285,6 +285,7 @@ def validate_traces(run, module, traces, cfg=None, label="", props=None, extra_d
                    "program": prog, "event": ev,
                    "summary": "%s false at event %s of %s: %s" % (res.violated, l, tr["id"] if tr else "?", describe(ev) if (describe and ev) else brief(ev))}
             run.violation(rec)
+    run.raise_deferred()
     return results
 
 
@@ -302,9 +303,11 @@ def validate_insts(run, module, insts, cfg, label="", props=None, programs=None,
         data = {"insts": ch, "active": active}
         if extra_data:
             data.update(extra_data)
-        return _tlc_on_chunk(module, cfg, data, w, False, False, heap)
+        # quick tier: a chunk that needs more than 5 minutes is pathological (on the unchanged tree every chunk takes < 1 minute)
+        return _tlc_on_chunk(module, cfg, data, w, False, False, heap, timeout=(300 if run.tier == "quick" else 3000))
     with ThreadPoolExecutor(parallel) as ex:
         results = list(ex.map(job, chunks))
+    run.defer_errors, run.deferred = True, []
     for ci, (ch, res) in enumerate(zip(chunks, results)):
         run.add_tlc(res, "%s#%d" % (label or module, ci))
         run.traces += len(ch)
